@@ -217,7 +217,7 @@ func runC10(r *mon.Run) {
 		}
 	})
 
-	r.Require("c10:frompoint:after-failed-decodes")
+	r.Require("c10:frompoint:after-failed-decodes", "c10:frompoint:source-destroyed-afterwards")
 	r.Each("c10/from-point", r.N(3000, 100000), func(w *mon.W, i int) {
 		rng := w.Rng
 		P := pool[rng.Intn(len(pool))]
@@ -264,6 +264,12 @@ func runC10(r *mon.Run) {
 		}
 		if !snapPoint(lp).equal(before) {
 			w.Fail("c10/NewPublicKeyFromPoint:operand", "the constructor modified its argument")
+		}
+		if k != nil && err == nil && !P.P.Inf {
+			// the caller goes on using ITS point (accumulator patterns: acc.Add(acc, G) per key)
+			wreckPoint(lp, i)
+			w.Class("c10:frompoint:source-destroyed-afterwards")
+			checkPublicKey(w, "NewPublicKeyFromPoint (after the caller changed the point it had passed)", k, P.P)
 		}
 		if p, _ := mon.Panics(func() { _, _ = secec.NewPublicKeyFromPoint(new(Point)) }); !p && i%50 == 0 {
 			w.Fail("c10/NewPublicKeyFromPoint:uninitialised", "an uninitialised Point was accepted without a panic")
@@ -330,6 +336,16 @@ func runC10(r *mon.Run) {
 			}
 			if bigFromScalar(s).Cmp(sv) != 0 {
 				w.Fail("c10/NewPrivateKeyFromScalar:operand", "the constructor modified its scalar")
+			}
+			if err2 == nil && k2 != nil {
+				// the caller wipes / goes on using ITS scalar and buffer
+				wreckScalar(s, i)
+				scribble(src)
+				checkPrivateKey(w, "NewPrivateKeyFromScalar (after the caller changed the scalar it had passed)", k2, sv)
+				if ok && k != nil {
+					checkPrivateKey(w, "NewPrivateKey (after the caller overwrote the buffer it had passed)", k, v)
+				}
+				copy(src, keep)
 			}
 		}
 	})
